@@ -1,10 +1,18 @@
-// c09r -seed S -n N [-workers W] [-only I]
+// c09r -seed S -n N [-workers W] [-only I] [-list] [-deadline D]
 //
-// The parent process plans N scenarios from ONE math/rand PRNG seeded by S, re-executes
-// itself as W worker processes (worker w runs the scenarios with index ≡ w mod W, serially)
-// and prints one line per scenario, in id order:
+// The parent process plans N scenarios from ONE math/rand PRNG seeded by S (op, mode, kind and a
+// sub-seed per scenario), re-executes itself as W worker processes (worker w runs the scenarios
+// with index ≡ w mod W, serially) and prints one line per scenario, in id order:
 //
-//	<id> <op> <args> | <go result> | <feature tags>
+//	<id> e2e <mode> <commitmode> ; <tok>,<tok>,… | ok or HANG:…+LEAK:g=…,c=…+… | <tags>
+//	<id> det <mode> <commitmode> <N> <k> <j> <qcap> | msg,…,nil,D,msg,…,eof,… | det,mode=…,buffered=…[,late-msg]
+//	<id> cac <commitmode> <n> | <cp>:<ctx>:<nil>:<oth> | cac,qcap=…[,late-commit-not-cp]
+//
+// Timeline tokens (one total order): c<cid>:<f|r|m|t>  x<cid>  r<cid>:<msg|nil|eof|cp|ctx|oth>
+// C<k> D<k>  q<api>:<m>  j<m>.  A worker that reported HANG or LEAK exits (code 3) and the parent
+// starts a fresh one for the rest; a worker that dies gives PANIC:<stderr> for the scenario it had
+// begun; a worker that exceeds the global deadline is killed (HANG:worker for what it left).
+// -only I runs scenario I alone in this process with a verbose log on stderr.
 package main
 
 import (
